@@ -50,4 +50,8 @@ CLAIMED["C16"] = dict(
   text="Every waveform class x every duration 1..40 (exhaustive, 5 parameter sets) plus generated durations <= 5000 and parameters of either sign against the defining formulas evaluated with numpy; from_max_val (peak bound, local optimality); algebra, equality, indexing/slicing vs numpy; Pulse constructors and ArbitraryPhase through the sampler. Exploration + exhaustive sub-domain.",
   note="Trusted: numpy.blackman/kaiser, scipy Pchip as the documented windows/interpolant; 1e-8 tolerance on InterpolatedWaveform (rounds to 9 decimals); from_max_val bounded to durations <= 5000/20000 ns.",
   technique="property-based testing: generated + exhaustively enumerated inputs against defining formulas and algebraic laws")
+CLAIMED["C12"] = dict(
+  text="Generated device parameters x registers/layouts built at, just inside and just outside each geometric limit, judged by an own predicate with an unspecified band equal to the coordinate precision, incl. the reported culprits; closure of max_connectivity / with_automatic_layout under validate_register; construction + spec text of every valid parameter combination. Exploration.",
+  note="Trusted: numpy float64 norms. Unspecified band: pair distance in [min-2e-6,min), radius within 1e-12 relative of the limit.",
+  technique="property-based testing: boundary-biased generated inputs against a validity predicate; closure/metamorphic checks")
 NOT_YET = {}
